@@ -151,6 +151,24 @@ func bigCase(kind string, n int, kseed int64, prop string) (*TrieCase, int) {
 			keys = append(keys, k)
 		}
 		sort.Strings(keys)
+	case "deep":
+		// key i is a prefix of key i+1 (n levels), every third level also a sibling: the level
+		// table, the descent and the neighbour search hundreds of levels down
+		nq = 120
+		k := []byte{}
+		a := []byte{0x00, 0x61, 0x62, 0xff}
+		for i := 0; i < n; i++ {
+			keys = append(keys, string(k))
+			if i%3 == 0 {
+				keys = append(keys, string(k)+"\x01z")
+			}
+			k = append(k, a[r.Intn(len(a))])
+			if k[len(k)-1] == 0x00 && i%3 == 0 {
+				k[len(k)-1] = 0x61 // keep the sibling "\x01z" on its own branch
+			}
+		}
+		sort.Strings(keys)
+		keys = uniq(keys)
 	case "testkeys-200kweb2", "testkeys-50kvl10":
 		keys = testkeys.Load(kind[len("testkeys-"):])
 		if len(keys) > n {
@@ -181,6 +199,9 @@ func bigCase(kind string, n int, kseed int64, prop string) (*TrieCase, int) {
 	var vals [][]byte
 	if enc != "none" {
 		vals = valsRuns(r, enc, len(keys), 1+r.Intn(6), 0)
+		if kind == "deep" {
+			vals = valsRuns(r, enc, len(keys), 1, 0) // every key retained: the trie keeps its height
+		}
 	}
 	return &TrieCase{Keys: keys, Enc: enc, Vals: vals, Opt4: o4}, nq
 }
@@ -193,9 +214,9 @@ func genBig(t *Tracer, m *Meta, prop, tier string, seed int64) {
 		n    int
 	}
 	specs := []spec{{fmt.Sprintf("random%d", int(seed)%3), 20000}, {fmt.Sprintf("random%d", (int(seed)+1)%3), 70000},
-		{"testkeys-200kweb2", 120000}, {"testkeys-50kvl10", 50000}, {"16KiB-keys", 300}}
+		{"testkeys-200kweb2", 120000}, {"testkeys-50kvl10", 50000}, {"16KiB-keys", 300}, {"deep", 300 + int(seed)%50}}
 	if !quick {
-		specs = append(specs, spec{"random0", 100000}, spec{"random1", 100000}, spec{"random2", 40000}, spec{"testkeys-200kweb2", 250000}, spec{"16KiB-keys", 600})
+		specs = append(specs, spec{"random0", 100000}, spec{"random1", 100000}, spec{"random2", 40000}, spec{"testkeys-200kweb2", 250000}, spec{"16KiB-keys", 600}, spec{"deep", 1100})
 	}
 	for _, sp := range specs {
 		ks := r.Int63()
